@@ -579,12 +579,12 @@ func (e *Exec) post(i int, st Step) {
 // It returns false if the bubble cannot become quiescent with all calls returned.
 func (e *Exec) Finish(closeAtEnd bool) {
 	// Close cancels announce-triggered syncs: when Close was called and no explicit sync is outstanding, a sync
-	// parked at a (still closed) gate must go away on its own. Normal cost: microseconds; 2 s of real time is the
+	// parked at a (still closed) gate must go away on its own. Normal cost: microseconds; 10 s of real time is the
 	// bound (only spent when the sync is in fact not cancelled).
 	if e.CloseAt >= 0 && e.anyParked() {
 		e.afterSettle()
 		if e.explicitOut == 0 {
-			e.W.SettleUntilCap(func() bool { return !e.anyParked() }, 10000)
+			e.W.SettleUntilCap(func() bool { return !e.anyParked() }, 50000)
 			if e.anyParked() {
 				e.fail("Close was called %d steps ago, no explicit sync is outstanding, yet an announce-triggered sync is still parked at its publisher's closed gate: it was not cancelled", len(e.Ops))
 			}
@@ -595,7 +595,7 @@ func (e *Exec) Finish(closeAtEnd bool) {
 	}
 	// With every gate open each call must return. A call stuck behind a library mutex would make synctest.Wait
 	// (and the end of the bubble) hang, because synctest does not count Mutex.Lock as durably blocked; so first
-	// wait heuristically (up to 2 s of real time; normal cost: microseconds) and bail out of the process with a
+	// wait heuristically (up to 10 s of real time; normal cost: microseconds) and bail out of the process with a
 	// marked panic that the driver confirms by replaying the case in fresh processes.
 	allDone := func() bool {
 		for _, o := range e.Ops {
@@ -605,12 +605,12 @@ func (e *Exec) Finish(closeAtEnd bool) {
 		}
 		return true
 	}
-	e.W.SettleUntilCap(allDone, 10000)
+	e.W.SettleUntilCap(allDone, 50000)
 	if !allDone() {
 		msg := "VERIF-NORETURN:"
 		for _, o := range e.Ops {
 			if !o.Done() {
-				msg += fmt.Sprintf(" %s call issued at step %d has not returned 2 s after every gate was opened;", o.Kind, o.Step)
+				msg += fmt.Sprintf(" %s call issued at step %d has not returned 10 s after every gate was opened;", o.Kind, o.Step)
 			}
 		}
 		if e.Viol != "" {
